@@ -65,11 +65,11 @@ def run(tier, seed, procs):
     tasks = [(MOD, n, lay, K) for n in range(0, N + 1) for lay in gen.LAYOUTS]
     cols = drive.pool_map(drive.shard_enum_story, tasks, procs)
     kw = dict(kinds=gen.STORY_KINDS, faults='some', rich=True, degenerate=True)
-    shards, per = (4, 500) if quick else (16, 12000)
+    shards, per = (8, 400) if quick else (16, 12000)
     cols += drive.pool_map(drive.shard_hyp_steps,
                            [(MOD, per, seed * 1000 + i, kw) for i in range(shards)], procs)
     from vlib import history
-    hs, runs, steps = (4, 40, 20) if quick else (16, 800, 50)
+    hs, runs, steps = (8, 30, 20) if quick else (16, 800, 50)
     cols += drive.pool_map(history.shard_history,
                            [(MOD, runs, steps, seed * 1000 + 500 + i, {}) for i in range(hs)], procs)
     return drive.merge_all(PROP, cols)
